@@ -1,9 +1,14 @@
 """C14 — segment-group membership is the transitive closure; optimising never changes it.
 
-Tie: hand model (lean/NmlVerif/Model/Groups.lean) + correspondence on generated cells (random group DAGs, duplicate
-members/includes, overlapping members, the implicit "all" group, natural-sort-sensitive ids), each evaluated on the cell
-built in memory AND on the same cell after an XML write/load round trip; the same cases are evaluated against a
-harness-side reference (set reachability) for the full property statement on the real code.
+Tie: (1) TRANSLATOR: translators/groups_extract.py rewrites lean/NmlVerif/Gen/Groups.lean from the Python source of the
+four anchored methods on every run (statement by statement, refusing what it does not understand); Props/C14.lean proves
+the generated definitions equal to the hand model (lean/NmlVerif/Model/Groups.lean) for all inputs (`c14_gen_*`), and
+`c14_main` states the property on the generated definitions. (2) correspondence on generated cells (random group DAGs,
+duplicate members/includes, overlapping members, the implicit "all" group, natural-sort-sensitive ids, list objects and
+Member/Include objects shared between groups, negative / missing segment ids, both kinds of argument and both values
+of assume_all_means_all, include chains deeper than the recursion limit), each evaluated on the cell built in memory
+AND on the same cell after an XML write/load round trip; the same cases are evaluated against a harness-side reference
+(set reachability) for the full property statement on the real code.
 """
 import json
 import os
@@ -15,17 +20,25 @@ import tempfile
 import fw
 
 LEAN_PROPS = ["NmlVerif.Props.C14"]
+LEAN_EXTRA = ["NmlVerif.Gen.Groups"]
 LEVEL = "proof"
 RULE = ("random cells: 0-6 groups (thorough 0-9) drawn from a pool of ids that natural sort orders differently from "
         "string sort (g2/g10/g01/g1, 9a/10, a1b2/a1b10, standard all/soma_group/...), include DAG in a random "
         "topological order (0-4 includes per group, duplicates, chains >= 3 deep, includes of an undefined 'all'), "
         "members overlapping the included closures with duplicates (same object or equal-valued objects), op = "
         "optimise_segment_groups or optimise_segment_group(g); malformed stream: include cycles, dangling includes, "
-        "duplicate group ids, empty id, unknown g. Every case runs twice: built in memory and after an XML round trip. "
+        "duplicate group ids, empty id, unknown g, a cycle next to a dangling include. 15% of the valid cases make two "
+        "groups share one members/includes list object or share Member/Include objects across groups; 8% use negative "
+        "or missing (None) segment ids (memory only: the loader rejects them); every case also asks every id with "
+        "assume_all_means_all=False and every SegmentGroup object (plus one that is not in the cell) instead of its id; "
+        "one chain deeper than the interpreter's recursion limit per run. "
+        "Every case runs twice: built in memory and after an XML round trip. "
         "A case is non-trivial when it is acyclic, nothing raises and some optimised group has >= 2 distinct includes, "
         ">= 1 direct member and >= 1 member supplied by an include; distinct = distinct canonical (cell, op, mode)")
 TRUST = [
-    "hand-written model of Cell.get_all_segments_in_group / get_segment_group / optimise_segment_group(s), tied by correspondence only",
+    "translators/groups_extract.py (Python ast -> Lean do-notation; value representation of Member/Include objects, lists, "
+    "sets and group references as documented in its header; refuses anything else) and Lean's `do` elaboration; the hand "
+    "model is proved equal to its output, so it is no longer trusted by itself",
     "natsort.natsorted(xs, key=k) modelled as a stable sort by a key; the key order of group ids is computed by the harness "
     "(natural-sort chunks) and compared with natsort on every case; Member.segments are non-negative ints",
     "lxml/generateDS writer+parser keep the order and values of <member>/<include> children (sampled by the XML stream)",
@@ -36,7 +49,11 @@ ASSUMPTIONS = [
     "additionally assume no dangling include and no empty group id",
     "group ids are interned: 'all' -> 0, '' -> 1; a group with a duplicate id is invisible to the API (first one wins) and "
     "minimality is claimed for the visible group of each id",
-    "the cell is not modified concurrently; Member/Include objects carry int segment ids / str group ids",
+    "the cell is not modified concurrently; Member/Include objects carry int segment ids / str group ids; Cell.id is a str",
+    "segment ids are compared and sorted only: when a case has a negative or missing id the harness interns the ids by "
+    "their rank in natsort's order (None first, then numeric)",
+    "recursion depth: the theorems allow a depth above the number of groups; CPython allows sys.getrecursionlimit() frames "
+    "(open known finding C14:recursion-limit:acyclic-chain, c14_depth_full/_partial/_witness)",
 ]
 
 POOL = ["soma_group", "dendrite_group", "axon_group", "g1", "g2", "g10", "g01", "G3", "a1b2", "a1b10", "dend_3",
@@ -64,6 +81,9 @@ def intern(case):
         ids += g["includes"]
     if case["op"] == "group":
         ids.append(case["g"])
+    for g in case.get("foreign", []):
+        ids.append(g["id"])
+        ids += g["includes"]
     tbl = {"all": 0, "": 1}
     for i in ids:
         if i not in tbl:
@@ -71,6 +91,21 @@ def intern(case):
     keys = sorted({natkey(i) for i in tbl})
     rank = {i: keys.index(natkey(i)) for i in tbl}
     return tbl, rank
+
+
+def segkey(v):
+    """natsort's order of Member.segments values: None first, then numeric"""
+    return (0, 0) if v is None else (1, v)
+
+
+def intern_segs(case):
+    """segment id -> Nat: identity for ordinary cells, rank in natsort's order when a negative or missing id occurs"""
+    vals = set(case["segs"])
+    for g in list(case["groups"]) + list(case.get("foreign", [])):
+        vals |= set(g["members"])
+    if all(isinstance(v, int) and v >= 0 for v in vals):
+        return {v: v for v in vals}
+    return {v: k for k, v in enumerate(sorted(vals, key=segkey))}
 
 
 # ---------------------------------------------------------------- generator
@@ -121,12 +156,40 @@ def gen_case(rng, big=False, malformed=False):
         closure[gid] = set(mem) | cov
     glist = [groups[i] for i in ids]
     case = {"segs": segs, "groups": glist, "alias": rng.random() < 0.3}
+    if not malformed and len(topo) >= 2 and rng.random() < 0.15:
+        # two groups share ONE list object (members, or includes when that keeps the graph acyclic), or Member/Include
+        # objects are shared across groups
+        kind = rng.choice(["members", "members", "includes", "objects"])
+        if kind == "objects":
+            case["xalias"] = True
+        else:
+            a, b = sorted(rng.sample(range(len(topo)), 2))      # topo[a] is above topo[b]
+            src, dst = (topo[b], topo[a]) if kind == "includes" or rng.random() < 0.5 else (topo[a], topo[b])
+            groups[dst][kind] = list(groups[src][kind])
+            case["share"] = [[kind, ids.index(src), ids.index(dst)]]
+    if not malformed and rng.random() < 0.08:
+        # unusual Member.segments / Segment.id values: negative, missing; only the order and equality matter
+        pool = sorted({v for g in glist for v in g["members"]} | set(segs))
+        ren = {v: v for v in pool}
+        for v in rng.sample(pool, min(len(pool), rng.randint(1, 3))):
+            ren[v] = -1 - v
+        if pool and rng.random() < 0.5:
+            ren[rng.choice(pool)] = None
+        for g in glist:
+            g["members"] = [ren[m] for m in g["members"]]
+        case["segs"] = [ren[v] for v in segs if ren[v] is not None]
+        case["kinds"] = True
+    if rng.random() < 0.5:
+        # a SegmentGroup object that does not belong to the cell, passed to get_all_segments_in_group
+        fm = [rng.choice(case["segs"]) for _ in range(rng.randint(0, 3))] if case["segs"] else []
+        case["foreign"] = [{"id": rng.choice(["foreign", "all"] + ids), "members": fm + fm[:1],
+                            "includes": [rng.choice(ids + ["all"]) for _ in range(rng.randint(0, 2))]}]
     if ids and rng.random() < 0.4:
         case["op"], case["g"] = "group", rng.choice(ids)
     else:
         case["op"] = "all"
     if malformed:
-        kind = rng.choice(["self", "cycle2", "cycle3", "dangling", "dupid", "emptyid", "unknown-g", "dupseg"])
+        kind = rng.choice(["self", "cycle2", "cycle3", "dangling", "dupid", "emptyid", "unknown-g", "dupseg", "cycle-dangling"])
         case["malformed"] = kind
         if kind == "self" and glist:
             g = rng.choice(glist)
@@ -150,6 +213,21 @@ def gen_case(rng, big=False, malformed=False):
             case["op"], case["g"] = "group", rng.choice(["nosuch", "", "all"])
         elif kind == "dupseg" and segs:
             case["segs"] = segs + [segs[0]]
+        elif kind == "cycle-dangling" and glist:
+            # the optimised group has a cycle through one include and a dangling include below another one: which
+            # error is met first depends on the order of its includes AFTER they were sorted
+            g = rng.choice(glist)
+            cyc, dang = rng.sample(["zz_cyc", "aa_dang", "m5", "m40"], 2)
+            glist.append({"id": cyc, "members": list(segs[:1]), "includes": [g["id"]]})
+            glist.append({"id": dang, "members": list(segs[:1]), "includes": ["nosuch"]})
+            extra = [cyc, dang]
+            rng.shuffle(extra)
+            for e in extra:
+                g["includes"].insert(rng.randint(0, len(g["includes"])), e)
+            if not g["members"] and segs:
+                g["members"] = [segs[0]]
+            if rng.random() < 0.7:
+                case["op"], case["g"] = "group", g["id"]
     return case
 
 
@@ -162,23 +240,44 @@ def build_cell(case):
         c.morphology.segments.append(n.Segment(
             id=s, name="s%d" % s,
             proximal=n.Point3DWithDiam(x=0, y=0, z=0, diameter=1), distal=n.Point3DWithDiam(x=1, y=0, z=0, diameter=1)))
+    mobj, iobj = {}, {}
     for g in case["groups"]:
         sg = n.SegmentGroup(id=g["id"])
-        mobj, iobj = {}, {}
+        if not case.get("xalias"):
+            mobj, iobj = {}, {}
         for m in g["members"]:
-            if case.get("alias") and m in mobj:
+            if (case.get("alias") or case.get("xalias")) and m in mobj:
                 sg.members.append(mobj[m])           # the very same object twice
             else:
                 mobj[m] = n.Member(segments=m)
                 sg.members.append(mobj[m])
         for i in g["includes"]:
-            if case.get("alias") and i in iobj:
+            if (case.get("alias") or case.get("xalias")) and i in iobj:
                 sg.includes.append(iobj[i])
             else:
                 iobj[i] = n.Include(segment_groups=i)
                 sg.includes.append(iobj[i])
         c.morphology.segment_groups.append(sg)
+    sgs = c.morphology.segment_groups
+    for kind, src, dst in case.get("share", []):
+        if kind == "members":
+            sgs[dst].members = sgs[src].members          # the very same list object
+        else:
+            sgs[dst].includes = sgs[src].includes
     return c
+
+
+def foreign_objects(case):
+    import neuroml as n
+    out = []
+    for g in case.get("foreign", []):
+        sg = n.SegmentGroup(id=g["id"])
+        for m in g["members"]:
+            sg.members.append(n.Member(segments=m))
+        for i in g["includes"]:
+            sg.includes.append(n.Include(segment_groups=i))
+        out.append(sg)
+    return out
 
 
 def roundtrip(cell, root, k):
@@ -261,6 +360,13 @@ def run_real(case, mode, root, k):
             r = guarded(lambda: cell.optimise_segment_groups())
         return dump_groups(cell) if r is None else r
     out = {"before": resolved(), "objdiff": objdiff}
+    # assume_all_means_all=False (keyword and positional), every SegmentGroup object of the list and a foreign one
+    out["noall"] = [[i, guarded(lambda: list(cell.get_all_segments_in_group(i, assume_all_means_all=False)))] for i in ask]
+    pos = [[i, guarded(lambda: list(cell.get_all_segments_in_group(i, False)))] for i in ask]
+    if pos != out["noall"]:
+        objdiff.append(["positional-flag", out["noall"], pos])
+    out["objs"] = [guarded(lambda: list(cell.get_all_segments_in_group(sg)))
+                   for sg in list(cell.morphology.segment_groups) + foreign_objects(case)]
     out["once"] = op()
     if isinstance(out["once"], str):
         out["after"], out["twice"] = None, None
@@ -273,11 +379,15 @@ def run_real(case, mode, root, k):
 # ---------------------------------------------------------------- model (Lean driver)
 def model_line(case):
     tbl, rank = intern(case)
-    j = {"segs": case["segs"],
-         "groups": [{"id": tbl[g["id"]], "members": g["members"], "includes": [tbl[i] for i in g["includes"]]}
-                    for g in case["groups"]],
+    st = intern_segs(case)
+
+    def grp(g):
+        return {"id": tbl[g["id"]], "members": [st[m] for m in g["members"]], "includes": [tbl[i] for i in g["includes"]]}
+    j = {"segs": [st[v] for v in case["segs"]],
+         "groups": [grp(g) for g in case["groups"]],
+         "foreign": [grp(g) for g in case.get("foreign", [])],
          "keys": [[tbl[i], rank[i]] for i in tbl],
-         "fuel": len(case["groups"]) + 3,
+         "fuel": case.get("fuel", len(case["groups"]) + 3),
          "ask": [tbl[i] for i in ask_ids(case)],
          "op": case["op"]}
     if case["op"] == "group":
@@ -288,19 +398,22 @@ def model_line(case):
 def canon_real(case, r):
     """real result in the model's vocabulary (interned ids)"""
     tbl, _ = intern(case)
+    st = intern_segs(case)
 
     def res(x):
-        return x if isinstance(x, str) else [int(v) for v in x]
+        return x if isinstance(x, str) else [st.get(v, -1) for v in x]
 
     def groups(x):
         if x is None or isinstance(x, str):
             return x
-        return [{"id": tbl.get(g["id"], -1), "members": [int(m) for m in g["members"]],
+        return [{"id": tbl.get(g["id"], -1), "members": [st.get(m, -1) for m in g["members"]],
                  "includes": [tbl.get(i, -1) for i in g["includes"]]} for g in x]
     return {"before": [[tbl[i], res(v)] for i, v in r["before"]],
             "once": groups(r["once"]),
             "after": None if r["after"] is None else [[tbl[i], res(v)] for i, v in r["after"]],
-            "twice": groups(r["twice"])}
+            "twice": groups(r["twice"]),
+            "noall": [[tbl[i], res(v)] for i, v in r["noall"]],
+            "objs": [res(v) for v in r["objs"]]}
 
 
 # ---------------------------------------------------------------- reference (independent of the Lean model)
@@ -376,9 +489,22 @@ def oracle(ctx, case, mode, real):
             ctx.fail("C14:resolve-error", "get_all_segments_in_group(%r) raised %s on an acyclic cell" % (i, v), payload)
             return False
         if set(v) != ref["clo"][i]:
-            ctx.fail("C14:resolve-not-closure", "get_all_segments_in_group(%r) = %s, closure is %s" % (i, v, sorted(ref["clo"][i])), payload)
+            ctx.fail("C14:resolve-not-closure", "get_all_segments_in_group(%r) = %s, closure is %s" % (i, v, sorted(ref["clo"][i], key=segkey)), payload)
         elif len(set(v)) != len(v):
             ctx.fail("C14:resolve-duplicate", "get_all_segments_in_group(%r) reports a segment twice: %s" % (i, v), payload)
+    # 1b. the flag changes nothing for a defined group; a SegmentGroup object resolves to its members + its includes
+    for i, v in real.get("noall", []):
+        if i in ref["first"] and (isinstance(v, str) or set(v) != ref["clo"][i] or len(set(v)) != len(v)):
+            ctx.fail("C14:resolve-not-closure:flag", "get_all_segments_in_group(%r, assume_all_means_all=False) = %s, "
+                     "closure is %s" % (i, v, sorted(ref["clo"][i], key=segkey)), payload)
+    objs = list(case["groups"]) + list(case.get("foreign", []))
+    for g, v in zip(objs, real.get("objs", [])):
+        want = set(g["members"])
+        for i in g["includes"]:
+            want |= ref["clo"].get(i, set())
+        if isinstance(v, str) or set(v) != want or len(set(v)) != len(v):
+            ctx.fail("C14:resolve-not-closure:object", "get_all_segments_in_group(<SegmentGroup %r>) = %s, closure is %s" % (
+                g["id"], v, sorted(want, key=segkey)), payload)
     # 2. optimise
     if case["op"] == "group" and case["g"] not in ref["first"]:
         if real["once"] != "notFound":
@@ -392,7 +518,7 @@ def oracle(ctx, case, mode, real):
     for i, v in real["after"]:
         if isinstance(v, str) or set(v) != ref["clo"][i]:
             ctx.fail("C14:closure-changed", "segments of group %r changed by optimising: before %s after %s" % (
-                i, sorted(ref["clo"][i]), v), payload)
+                i, sorted(ref["clo"][i], key=segkey), v), payload)
     after = {g["id"]: g for g in real["once"]}
     if [g["id"] for g in real["once"]] != [g["id"] for g in case["groups"]]:
         ctx.fail("C14:groups-changed", "the list of groups changed", payload)
@@ -448,6 +574,24 @@ CORPUS = [
                 {"id": "g10", "members": [3], "includes": ["g2"]}, {"id": "g2", "members": [2], "includes": ["g1"]},
                 {"id": "g1", "members": [1, 1], "includes": []}, {"id": "g01", "members": [0], "includes": []},
                 {"id": "everything", "members": [2], "includes": ["all"]}]},
+    # two groups share one `members` list object, a third shares its `includes` list object with the first; Member
+    # objects shared across groups (value semantics: nothing leaks through the shared objects)
+    {"segs": [0, 1, 2, 3], "alias": False, "xalias": True, "op": "all", "share": [["members", 1, 2], ["includes", 1, 0]],
+     "groups": [{"id": "top", "members": [3, 1, 3], "includes": ["leaf", "leaf"]},
+                {"id": "mid", "members": [2, 0, 2, 1], "includes": ["leaf", "leaf"]},
+                {"id": "twin", "members": [2, 0, 2, 1], "includes": []},
+                {"id": "leaf", "members": [1, 1], "includes": []}],
+     "foreign": [{"id": "foreign", "members": [3, 3], "includes": ["mid", "all"]}]},
+    # negative and missing segment ids (natsort: None first, then numeric), memory only
+    {"segs": [-2, 0, 5], "alias": False, "op": "all", "kinds": True,
+     "groups": [{"id": "a", "members": [-2, None, 5, -2], "includes": []},
+                {"id": "b", "members": [5], "includes": []},
+                {"id": "g", "members": [0, None, -2, 0, 5], "includes": ["b", "a", "b"]}]},
+    # past disagreement (model repaired): a cycle g > zz > g and a dangling include below aa; the includes are resolved
+    # in the cell whose group g is ALREADY sorted, so the unknown group is met before the cycle
+    {"segs": [0, 1], "alias": False, "op": "group", "g": "g", "malformed": "cycle-dangling",
+     "groups": [{"id": "g", "members": [0], "includes": ["zz", "aa"]}, {"id": "zz", "members": [1], "includes": ["g"]},
+                {"id": "aa", "members": [1], "includes": ["nosuch"]}]},
     # malformed: self include / two-cycle / dangling include before a cycle / duplicate ids / empty id
     {"segs": [0], "alias": False, "op": "all", "malformed": "self",
      "groups": [{"id": "g", "members": [0], "includes": ["g"]}]},
@@ -485,15 +629,22 @@ def run_cases(ctx, cases):
         for k, c in enumerate(cases):
             check_natsort(ctx, c)
             for mode in ("mem", "xml"):
+                if mode == "xml" and c.get("kinds"):
+                    continue                      # the loader rejects negative / missing segment ids
                 real = run_real(c, mode, root, k)
                 canon = {"segs": c["segs"], "groups": c["groups"], "op": c["op"], "g": c.get("g"), "mode": mode,
-                         "alias": bool(c.get("alias")) and mode == "mem"}
+                         "alias": bool(c.get("alias")) and mode == "mem",
+                         "share": (c.get("share"), c.get("xalias")) if mode == "mem" else None}
                 nt = oracle(ctx, c, mode, real)
                 ctx.seen(canon, nontrivial=nt)
                 ctx.count("mode:" + mode)
                 ctx.count("op:" + c["op"])
                 ctx.count("stream:" + ("malformed:" + c["malformed"] if c.get("malformed") else "valid"))
                 ctx.count("ngroups:%d" % len(c["groups"]))
+                if mode == "mem":
+                    for feat in ("share", "xalias", "kinds", "foreign"):
+                        if c.get(feat):
+                            ctx.count("feature:" + (feat if feat != "share" else "share-" + c["share"][0][0]))
                 ctx.count("max-includes:%d" % max([len(set(g["includes"])) for g in c["groups"]] + [0]))
                 ctx.count("result:" + (real["once"] if isinstance(real["once"], str) else "ok").split(":")[0])
                 ctx.corr_evals += 1
@@ -507,7 +658,99 @@ def run_cases(ctx, cases):
         shutil.rmtree(root, ignore_errors=True)
 
 
+def deep_chain(ctx):
+    """An acyclic chain deeper than the interpreter's recursion limit (known finding C14:recursion-limit): the real
+    code raises RecursionError on it. The depth the interpreter really allows here is measured (bisection on the
+    chain's suffixes) and the model is run with that much fuel: it must then agree on every group asked."""
+    import neuroml as n
+    lim = sys.getrecursionlimit()
+    N = lim + 40
+    names = ["c%04d" % k for k in range(N)]
+    case = {"segs": [0, 1, 2], "alias": False, "op": "group", "g": names[0],
+            "groups": [{"id": names[k], "members": [k % 3], "includes": [names[k + 1]] if k + 1 < N else []}
+                       for k in range(N)]}
+    cell = build_cell(case)
+
+    def ask(k):       # group k has a chain of N-k groups below it (itself included)
+        try:
+            return list(cell.get_all_segments_in_group(names[k]))
+        except BaseException as e:  # noqa
+            if isinstance(e, (KeyboardInterrupt, SystemExit)):
+                raise
+            return exc_tag(e)
+    lo, hi = 1, N                       # depth lo resolves, depth hi does not (if hi does, the finding is gone)
+    top = ask(0)
+    payload = {"case": {"deep_chain": N, "recursion_limit": lim}, "mode": "mem"}
+    ctx.count("stream:deep-chain")
+    if top == "outOfFuel":
+        ctx.fail("C14:recursion-limit:acyclic-chain",
+                 "get_all_segments_in_group on an acyclic chain of %d nested groups raises RecursionError "
+                 "(recursion limit %d)" % (N, lim), payload)
+        while hi - lo > 1:
+            mid = (lo + hi) // 2
+            if isinstance(ask(N - mid), str):
+                hi = mid
+            else:
+                lo = mid
+        depth = lo
+    else:
+        depth = N
+    ctx.extra["deep_chain"] = {"groups": N, "recursion_limit": lim, "deepest_chain_resolved": depth}
+    # the optimiser needs the same resolutions: it raises on the deep group as well and leaves a shallow one minimal
+    shallow = max(0, N - max(1, depth - 20))
+    r0 = guarded_full(lambda: cell.optimise_segment_group(names[0]))
+    r1 = guarded_full(lambda: cell.optimise_segment_group(names[shallow]))
+    if r0 == "outOfFuel":
+        ctx.fail("C14:recursion-limit:acyclic-chain", "optimise_segment_group on the same chain raises RecursionError", payload)
+    elif r0 is not None:
+        ctx.fail("C14:unexpected-error", "optimise_segment_group on a deep chain raised %s" % r0, payload)
+    if r1 is not None:
+        ctx.fail("C14:unexpected-error", "optimise_segment_group on a chain of depth %d raised %s" % (N - shallow, r1), payload)
+    # model with exactly the measured depth as fuel, asked at the boundary and far from it
+    probes = sorted({0, N - 1, N - depth, max(0, N - depth - 1), min(N - 1, N - depth + 1), N // 2})
+    tbl, rank = intern(case)
+    st = intern_segs(case)
+    line = {"segs": case["segs"], "foreign": [], "op": "none", "fuel": depth, "ask": [tbl[names[k]] for k in probes],
+            "groups": [{"id": tbl[g["id"]], "members": g["members"], "includes": [tbl[i] for i in g["includes"]]}
+                       for g in case["groups"]],
+            "keys": [[tbl[i], rank[i]] for i in tbl]}
+    rc, out = fw.run_driver("C14", [json.dumps(line)])
+    real = [[tbl[names[k]], ask(k)] for k in probes]
+    ctx.corr_evals += 1
+    ctx.seen({"deep_chain": N}, nontrivial=False)
+    if rc != 0 or len(out) != 1:
+        ctx.disagree("driver", "driver failed on the deep chain rc=%s" % rc, "\n".join(out[-3:]), None)
+    else:
+        m = json.loads(out[0])["before"]
+        if m != real:
+            ctx.disagree("groups-model-depth", {"deep_chain": N, "fuel": depth, "probes": probes},
+                         [[i, v if isinstance(v, str) else len(v)] for i, v in real],
+                         [[i, v if isinstance(v, str) else len(v)] for i, v in m])
+
+
+def guarded_full(f):
+    """like `guarded` but with the interpreter's own recursion limit"""
+    try:
+        return f()
+    except BaseException as e:  # noqa
+        if isinstance(e, (KeyboardInterrupt, SystemExit)):
+            raise
+        return exc_tag(e)
+
+
+def regenerate(ctx):
+    tdir = os.path.join(fw.VERIF, "translators")
+    if tdir not in sys.path:
+        sys.path.insert(0, tdir)
+    import groups_extract
+    gaps = groups_extract.regenerate(fw.REPO, os.path.join(fw.LEAN, "NmlVerif", "Gen", "Groups.lean"))
+    ctx.extra["translator"] = {"file": "lean/NmlVerif/Gen/Groups.lean", "methods": groups_extract.TARGETS,
+                               "gaps": gaps, "assumptions": getattr(groups_extract.regenerate, "assumptions", [])}
+    return gaps
+
+
 def run(ctx):
+    deep_chain(ctx)
     n = ctx.n(2000, 12000) * ctx.search_mult
     cases = [json.loads(json.dumps(c)) for c in CORPUS]
     big = ctx.tier == "thorough"
@@ -519,6 +762,9 @@ def run(ctx):
 
 def replay(ctx, payload):
     case = payload["case"]["case"] if "case" in payload.get("case", {}) else payload["case"]
-    run_cases(ctx, [case])
+    if "deep_chain" in case:
+        deep_chain(ctx)
+    else:
+        run_cases(ctx, [case])
     return {"fails": bool(ctx.failures or ctx.corr_disagreements), "failures": ctx.failures,
             "disagreements": ctx.corr_disagreements}
